@@ -5,6 +5,7 @@ mod windows;
 mod c01;
 mod c02;
 mod c07;
+mod c08;
 mod daywalk;
 mod c03;
 mod c06;
@@ -65,6 +66,7 @@ fn main() {
     "C03" => c03::run(&ctx),
     "C06" => c06::run(&ctx),
     "C07" => c07::run(&ctx),
+    "C08" => c08::run(&ctx),
     "C10" => c10::run(&ctx),
     _ => {
       eprintln!("unknown property {}", prop);
